@@ -49,6 +49,11 @@ class AV:
         for t, pol in path.atoms():
             if pol and t[0] == "compare" and t[1] == ("in",) and t[2][0] == ("const", None):
                 return True
+        # ... also when it only follows from a compound condition (`a in d or None in d` with `a in d` false)
+        for t, pol, _n in path.conds:
+            for x in subterms(t):
+                if x[0] == "compare" and x[1] == ("in",) and x[2][0] == ("const", None) and path.entails(x, True):
+                    return True
         return False
 
     def enc_jun(self, x):
@@ -194,7 +199,7 @@ def check_anonymize_value(ctx, rep, cl, focus=("flow", "lookup", "encoders", "co
             continue
         rep.ob(cl + ".context-restored", fn.name, True, "head + <pseudonym> + tail", w, nontrivial=False)
         anon = parts[1]
-        rep.ob(cl + ".reserved-checked-first", fn.name, path.truth(("compare", ("in",), (av.V, av.reserved))) is False and path.truth(av.V) is True,
+        rep.ob(cl + ".reserved-checked-first", fn.name, path.entails(("compare", ("in",), (av.V, av.reserved)), False) and path.entails(av.V, True),
                "a pseudonym is returned on a path that has not established `value not in reserved_words` and `value non-empty` (%s): a reserved word that is already a lookup key (e.g. as the plaintext of a $9$ secret) would be replaced" % path.describe()[:160], w,
                key=cl + ".reserved-checked-first|_anonymize_value")
         leak = secret_occurrences(av, anon)
@@ -203,13 +208,13 @@ def check_anonymize_value(ctx, rep, cl, focus=("flow", "lookup", "encoders", "co
         # classify
         if anon == ("sub", av.lookup, av.V):
             n_hit += 1
-            ok = path.truth(("compare", ("in",), (av.V, av.lookup))) is True and not stores
+            ok = path.entails(("compare", ("in",), (av.V, av.lookup)), True) and not stores
             rep.ob(cl + ".hit-returns-stored", fn.name, ok, "lookup hit returns lookup[value] under `value in lookup`, without storing (%s)" % path.describe()[-120:], w, key=cl + ".hit-returns-stored|_anonymize_value")
             continue
         if anon == av.enc_jun(("sub", av.lookup, av.DEC)):
             n_dechit += 1
-            ok = path.truth(("compare", ("in",), (av.DEC, av.lookup))) is True and not stores
-            ok = ok and path.truth(("call", ("attr", av.V, "startswith"), (av.MAGIC,), ())) is True
+            ok = path.entails(("compare", ("in",), (av.DEC, av.lookup)), True) and not stores
+            ok = ok and path.entails(("call", ("attr", av.V, "startswith"), (av.MAGIC,), ()), True)
             rep.ob(cl + ".decrypted-hit", fn.name, ok, "a $9$ value whose plaintext is known returns juniper_nonrandom_encrypt(lookup[plaintext], salt), without storing", w, key=cl + ".decrypted-hit|_anonymize_value")
             continue
         if ("sub", av.lookup, av.V) in list(subterms(anon)) or any(s[0] == "sub" and strip_mut(s[1]) == av.lookup for s in subterms(anon)):
@@ -225,7 +230,7 @@ def check_anonymize_value(ctx, rep, cl, focus=("flow", "lookup", "encoders", "co
         ok, want = encoder_ok(av, klass, anon)
         rep.ob(cl + ".encoder", "%s[%s]" % (fn.name, klass), ok, "format class %s is re-encoded as %s; expected %s" % (klass, show(anon)[:200], want), w, key="%s.encoder|%s" % (cl, klass))
         # not both in the lookup
-        miss_ok = path.truth(("compare", ("in",), (av.V, av.lookup))) is False
+        miss_ok = path.entails(("compare", ("in",), (av.V, av.lookup)), False)
         rep.ob(cl + ".miss-after-tests", fn.name, miss_ok, "a fresh pseudonym is allocated only after `value in lookup` failed", w, nontrivial=False)
         dec_truthy = path.truth(av.DEC)
         attempted = path.truth(("call", ("attr", av.V, "startswith"), (av.MAGIC,), ()))
